@@ -1954,6 +1954,35 @@ def c01u(F, R):
     if n == 0:
         raise Anchor("no rewrite rule of the value pass takes the register map and a memory map")
 
+@rule("C01", "C01.v.an-indirect-call-is-a-call", floor=2)
+@rule("C02", "C02.p.an-indirect-call-is-a-call", floor=2)
+def c01v(F, R):
+    """`jalr ra, rs, imm` calls a function the analyzer cannot name: whatever it is, it may overwrite every caller-saved register and read every argument register. The kill set of such a node is therefore the caller-saved class (as for `jal ra, f`) and its gen set includes the argument class; a kill set of just `ra` lets `li a7, 1; jalr ra, t1; ecall` keep claiming a7 = 1 across the call"""
+    from .nodeprops import eval_prop_full, Unx
+
+    def calls_in(v):
+        out = set()
+        if isinstance(v, tuple):
+            if v and v[0] == "call" and len(v) > 1 and isinstance(v[1], str):
+                out.add(v[1])
+            for x in v:
+                out |= calls_in(x)
+        return out
+    env = {"inst": "Jalr", "rd": "X1", "rs1": "X6", "imm": 0}
+    for meth, cls, what in (("kill_reg", "caller_saved_set", "overwrite every caller-saved register"), ("gen_reg", "argument_set", "read every argument register")):
+        gp = F.fn(F.method(PNODE, meth, trait=HGKI))
+        try:
+            v = eval_prop_full(F, meth, "JumpLinkR", env, trait=HGKI)
+        except Unx as ex:
+            R.bad(f"{meth}|unextractable", f"UNEXTRACTABLE: {meth} for `jalr ra, t1, 0` ({ex})", gp["sp"])
+            continue
+        if cls in calls_in(v):
+            R.ok(meth, detail=f"`jalr ra, t1, 0`: {meth} contains Register::{cls}()", where=gp["sp"])
+        else:
+            R.bad(meth, f"`jalr ra, t1, 0` (a call through a register) has {meth} = {sorted(calls_in(v) - {'const_zero_set'}) or 'its own operands only'}: the callee can {what}, so "
+                  + ("constants and stack-pointer facts in caller-saved registers survive a call that destroys them (`li a7, 1; jalr ra, t1; ecall` is read as service 1 whatever the callee left in a7)" if meth == "kill_reg"
+                     else "an argument set up for the callee (`li a0, 5; jalr ra, t1`) is reported as an unused value"), gp["sp"])
+
 
 @rule("C01", "C01.h.kill-reaches-values", floor=1)
 def c01h(F, R):
